@@ -98,6 +98,10 @@ Definition compile_externs (enum : list gitem) : list string :=
 
 (* helper_code = [_static_helpers[v] for v in needed_helpers]: NO sort at all *)
 Definition compile_helpers (enum : list gitem) : list string := blocks enum.
+(* the emission as the CURRENT source codes it: the site scan tells whether the comprehension iterates
+   sorted(needed_helpers) (Gen_Sites.helpers_emission_sorted) *)
+Definition compile_helpers_gen (is_sorted : bool) (enum : list gitem) : list string :=
+  if is_sorted then blocks (sort_items enum) else compile_helpers enum.
 
 (** ** Window structs: a set of frozen dataclasses (name, definition), i.e. keyed BY VALUE; the value is a
        function of (base type, n_dims, is_const) (window_struct / _window_struct). *)
